@@ -664,7 +664,7 @@ def remove_iiv(model: Model, to_remove: Optional[Union[list[str], str]] = None):
 
     for eta in etas:
         eta_sym = Expr(eta)
-        for s in sset:
+        for ind, s in enumerate(sset):
             if eta_sym in s.free_symbols:
                 expr = sympy.sympify(s.expression).expand()
                 if len(expr.args) == 0:
@@ -682,10 +682,13 @@ def remove_iiv(model: Model, to_remove: Optional[Union[list[str], str]] = None):
                                     expr_subs = expr_subs.subs({(expr.args[i]): 0})
                                 else:
                                     expr_subs = expr_subs.subs({eta_sym: 0})
-                    # NOTE: Statements.reassign is used instead of Statements.subs here
+                    # NOTE: The statement is replaced instead of using Statements.subs here
                     #  since symengine subs (which is called further down) doesn't work
                     #  for substitution of subexpressions in exp(x+y)
-                    sset = sset.reassign(s.symbol, Expr(expr_subs))
+                    # NOTE: Only this statement is replaced: the symbol can be assigned
+                    #  again further down (e.g. by a covariate effect)
+                    new_ass = Assignment.create(s.symbol, Expr(expr_subs))
+                    sset = sset[:ind] + new_ass + sset[ind + 1 :]
 
     keep = [name for name in model.random_variables.names if name not in etas]
     model = model.replace(random_variables=rvs[keep], statements=sset)
